@@ -224,8 +224,26 @@ def monitors_smoothed_cov(rep, rng, n, quick):
         try:
             c = np.asarray(d.covariance(points=pts, method_smoothing=meth, **kw).values)[0]
         except Exception as e:  # noqa: BLE001
-            rep.notes.append(f"smoothed covariance {meth} raised {type(e).__name__}: {e}"[:160])
+            rep.case(("smoothcov", meth, X.tobytes()), kind=f"smoothed-covariance/{meth}")
+            rep.violation(f"smoothed covariance ({meth}) on 6 requested points of an 11-point grid raised {type(e).__name__}: {e}"[:300],
+                          {"X": C.hexf(X), "method": meth, "kwargs": {k: (v.tolist() if hasattr(v, "tolist") else v) for k, v in kw.items()}})
             continue
+        # as many requested points as grid points, but other points: the values must be those at the REQUESTED points,
+        # i.e. agree with what a larger request (these points plus the grid's end points) returns there
+        try:
+            p_same = np.linspace(0.03, 0.97, m)
+            p_more = np.unique(np.concatenate([[0.0], p_same, [1.0]]))
+            ca = np.asarray(d.covariance(points=DenseArgvals({"input_dim_0": p_same}), method_smoothing=meth, **kw).values)[0]
+            cb = np.asarray(d.covariance(points=DenseArgvals({"input_dim_0": p_more}), method_smoothing=meth, **kw).values)[0]
+            sel = np.searchsorted(p_more, p_same)
+            dev = float(np.max(np.abs(ca - cb[np.ix_(sel, sel)])))
+            if dev > 1e-8 * max(1.0, float(np.max(np.abs(cb)))):
+                rep.violation(f"smoothed covariance ({meth}) requested at {m} points other than the {m} grid points is not the surface "
+                              f"at those points (differs by {dev:.3g} from the same points inside a larger request)",
+                              {"X": C.hexf(X), "method": meth, "points": C.hexf(p_same)})
+        except Exception as e:  # noqa: BLE001
+            rep.violation(f"smoothed covariance ({meth}) at explicitly requested points raised {type(e).__name__}: {e}"[:300],
+                          {"X": C.hexf(X), "method": meth})
         rep.case(("smoothcov", meth, X.tobytes()), kind=f"smoothed-covariance/{meth}")
         bad = []
         if c.shape != (6, 6):
